@@ -1,8 +1,9 @@
 #!/bin/sh
-# Offline setup: nothing to compile.  Parse every TLA+ module with SANY and run
-# the spec-vs-CPython self-test.
+# Offline setup: nothing to compile.  Parse every TLA+ module with SANY, run the spec-vs-CPython self-test, model-check the
+# L1 state machines (small constants), and pre-generate the program corpora of the quick tiers with TLC.
 cd "$(dirname "$0")" || exit 2
 mkdir -p .cache evidence replays
+export PYTHONHASHSEED=0 PYTHONDONTWRITEBYTECODE=1 OPENBLAS_NUM_THREADS=1 OMP_NUM_THREADS=1
 fail=0
 cd spec
 for m in *.tla; do
@@ -13,5 +14,7 @@ done
 cd ..
 [ $fail -eq 0 ] || exit 2
 echo "SANY: all modules parse"
-PYTHONHASHSEED=0 /venv/bin/python -m harness.selftest || exit 2
+/venv/bin/python -m harness.selftest || exit 2
+/venv/bin/python -m harness.modelcheck || exit 2
+/venv/bin/python -m harness.pregen || exit 2
 echo "setup ok"
